@@ -429,3 +429,44 @@ func reachingStores(al *ssa.Alloc, at ssa.Instruction) []ssa.Value {
 	collect(mf.At(at))
 	return out
 }
+
+// reorgEdgesOf: the edges after a call of load on which load is known to have
+// signalled a reorg (is) / not to have (not).  The signal is the sentinel
+// error (errors.Is(err, ErrReorg)) or a boolean result of load.
+func reorgEdgesOf(ld *ssa.Call, errReorg *ssa.Global) (is, not []Edge) {
+	if e, ok := errResult(ld); ok && e != nil {
+		t, f := errorsIsEdges(e, errReorg)
+		is, not = append(is, t...), append(not, f...)
+	}
+	if refs := ld.Referrers(); refs != nil {
+		for _, r := range *refs {
+			if ex, ok := r.(*ssa.Extract); ok {
+				if b, ok := ex.Type().Underlying().(*types.Basic); ok && b.Info()&types.IsBoolean != 0 {
+					t, f := boolEdges(ex)
+					is, not = append(is, t...), append(not, f...)
+				}
+			}
+		}
+	}
+	return
+}
+
+// isReorgReturn: the return signals a reorg: its error result is the sentinel,
+// or its boolean result is the constant true.
+func isReorgReturn(r *ssa.Return, errReorg *ssa.Global) bool {
+	vals := returnValues(r)
+	if len(vals) == 0 {
+		return false
+	}
+	if u, ok := vals[len(vals)-1].(*ssa.UnOp); ok && u.X == ssa.Value(errReorg) {
+		return true
+	}
+	for _, v := range vals {
+		if k, ok := v.(*ssa.Const); ok && k.Value != nil {
+			if b, ok := k.Type().Underlying().(*types.Basic); ok && b.Info()&types.IsBoolean != 0 && k.Value.String() == "true" {
+				return true
+			}
+		}
+	}
+	return false
+}
